@@ -200,6 +200,7 @@ type Parser struct {
 	usedFuncs map[string][]string // Stores which function (key) calls which functions (values).
 	importing []string            // Absolute paths of the files on the current import chain.
 	visiting  []string            // Functions whose used functions are currently being collected.
+	imported  []string            // Names of all functions (public and private) of the imported files.
 }
 
 func New() Parser {
@@ -748,6 +749,13 @@ func (p *Parser) evaluateImports(ctx context) ([]Statement, error) {
 				return nil, err
 			}
 			statementsTemp = append(statementsTemp, importedProg.Body()...)
+
+			// Remember the imported function names, a function of this file must not take one of them.
+			for _, statement := range importedProg.Body() {
+				if statement.StatementType() == STATEMENT_TYPE_FUNCTION_DEFINITION {
+					p.imported = append(p.imported, statement.(FunctionDefinition).Name())
+				}
+			}
 
 			// Import-parser funcs with current parser funcs.
 			for funcName, usedFuncs := range importParser.usedFuncs {
@@ -1411,6 +1419,11 @@ func (p *Parser) evaluateFunctionDefinition(ctx context) (Statement, error) {
 	_, exists := ctx.findFunction(name, p.prefix)
 
 	if exists {
+		return nil, p.expectedError("unique function name", nameToken)
+	}
+
+	// The name must not be the prefixed name of a (private) function of an imported file either.
+	if slices.Contains(p.imported, buildPrefixedName(p.prefix, name)) {
 		return nil, p.expectedError("unique function name", nameToken)
 	}
 	openingBrace := p.peek()
